@@ -97,7 +97,7 @@ func checkCurrentNamespaceHasRelation(current *namespace, relation item) typeChe
 	}
 }
 
-func checkAllRelationsTypesHaveRelation(current *namespace, relationType item, relation string) typeCheck {
+func checkAllRelationsTypesHaveRelation(current *namespace, relationType item, relation item) typeCheck {
 	namespace := current.Name
 	return func(p *parser) {
 		recursiveCheckAllRelationsTypesHaveRelation(p, relationType, namespace, relationType.Val, relation, tupleToSubjectSetTypeCheckMaxDepth, map[[2]string]struct{}{})
@@ -109,7 +109,11 @@ func checkAllRelationsTypesHaveRelation(current *namespace, relationType item, r
 // (namespace, relation type) pairs that were already checked, so that every
 // pair is expanded at most once: unions of subject sets that refer to each
 // other would otherwise be expanded (number of union members)^depth times.
-func recursiveCheckAllRelationsTypesHaveRelation(p *parser, item item, namespace string, relationType string, relation string, depth int, visited map[[2]string]struct{}) {
+//
+// Errors about the traversed relation point at item, errors about the relation
+// that the types must have point at relationItem.
+func recursiveCheckAllRelationsTypesHaveRelation(p *parser, item item, namespace string, relationType string, relationItem item, depth int, visited map[[2]string]struct{}) {
+	relation := relationItem.Val
 	verifhook.Point("tc.rec")
 	if _, ok := visited[[2]string{namespace, relationType}]; ok {
 		return
@@ -128,7 +132,7 @@ func recursiveCheckAllRelationsTypesHaveRelation(p *parser, item item, namespace
 	for _, t := range r.Types {
 		if t.Relation == "" {
 			if _, ok := p.query().findRelation(t.Namespace, relation); !ok {
-				p.addErr(item, "relation %q was not declared in namespace %q",
+				p.addErr(relationItem, "relation %q was not declared in namespace %q",
 					relation, t.Namespace)
 			}
 		} else {
@@ -137,13 +141,13 @@ func recursiveCheckAllRelationsTypesHaveRelation(p *parser, item item, namespace
 			// there, otherwise the check fails with "relation does not
 			// exist".
 			if _, ok := p.query().findRelation(t.Namespace, relation); !ok {
-				p.addErr(item, "relation %q was not declared in namespace %q",
+				p.addErr(relationItem, "relation %q was not declared in namespace %q",
 					relation, t.Namespace)
 			}
 			// We also need to recursively check if the type has the required
 			// relation.
 			recursiveCheckAllRelationsTypesHaveRelation(
-				p, item, t.Namespace, t.Relation, relation, depth-1, visited)
+				p, item, t.Namespace, t.Relation, relationItem, depth-1, visited)
 		}
 	}
 }
